@@ -8,6 +8,7 @@ package absnfs
 
 import (
 	"fmt"
+	"runtime"
 	"sync/atomic"
 	"time"
 )
@@ -186,8 +187,88 @@ func (n *AbsfsNFS) UpdateTuningOptions(fn func(*TuningOptions)) {
 		updated.Timeouts = &tCopy
 	}
 	fn(&updated)
+	normalizeTuningOptions(&updated, old)
 	n.tuning.Store(&updated)
 	n.applyTuningSideEffects(old, &updated)
+}
+
+// normalizeTuningOptions gives zero or negative numeric and duration fields and
+// nil pointer fields the same defaults New applies at construction, so that a
+// partially filled update can never leave the server with a zero transfer
+// size, zero timeouts or nil timeout configuration.
+func normalizeTuningOptions(t *TuningOptions, prev *TuningOptions) {
+	if t.TransferSize <= 0 {
+		t.TransferSize = 65536
+	}
+	if t.AttrCacheTimeout <= 0 {
+		t.AttrCacheTimeout = 5 * time.Second
+	}
+	if t.AttrCacheSize <= 0 {
+		t.AttrCacheSize = 10000
+	}
+	if t.NegativeCacheTimeout <= 0 {
+		t.NegativeCacheTimeout = 5 * time.Second
+	}
+	if t.DirCacheTimeout <= 0 {
+		t.DirCacheTimeout = 10 * time.Second
+	}
+	if t.DirCacheMaxEntries <= 0 {
+		t.DirCacheMaxEntries = 1000
+	}
+	if t.DirCacheMaxDirSize <= 0 {
+		t.DirCacheMaxDirSize = 10000
+	}
+	if t.MaxWorkers <= 0 {
+		t.MaxWorkers = runtime.NumCPU() * 4
+	}
+	if t.MaxConnections <= 0 {
+		t.MaxConnections = 100
+	}
+	if t.IdleTimeout <= 0 {
+		t.IdleTimeout = 5 * time.Minute
+	}
+	if t.SendBufferSize <= 0 {
+		t.SendBufferSize = 262144
+	}
+	if t.ReceiveBufferSize <= 0 {
+		t.ReceiveBufferSize = 262144
+	}
+	if t.Timeouts == nil {
+		if prev != nil && prev.Timeouts != nil {
+			tCopy := *prev.Timeouts
+			t.Timeouts = &tCopy
+		} else {
+			t.Timeouts = &TimeoutConfig{}
+		}
+	}
+	to := t.Timeouts
+	if to.ReadTimeout <= 0 {
+		to.ReadTimeout = 30 * time.Second
+	}
+	if to.WriteTimeout <= 0 {
+		to.WriteTimeout = 60 * time.Second
+	}
+	if to.LookupTimeout <= 0 {
+		to.LookupTimeout = 10 * time.Second
+	}
+	if to.ReaddirTimeout <= 0 {
+		to.ReaddirTimeout = 30 * time.Second
+	}
+	if to.CreateTimeout <= 0 {
+		to.CreateTimeout = 15 * time.Second
+	}
+	if to.RemoveTimeout <= 0 {
+		to.RemoveTimeout = 15 * time.Second
+	}
+	if to.RenameTimeout <= 0 {
+		to.RenameTimeout = 20 * time.Second
+	}
+	if to.HandleTimeout <= 0 {
+		to.HandleTimeout = 5 * time.Second
+	}
+	if to.DefaultTimeout <= 0 {
+		to.DefaultTimeout = 30 * time.Second
+	}
 }
 
 // UpdatePolicyOptions swaps policy using drain-and-swap.
